@@ -101,6 +101,23 @@ static void result(const char *r, long code)
 	else printf("R %s | C %s | I ret=%ld\n", r, loglen ? logbuf : "-", code);
 	loglen = 0;
 }
+/* allocation failure injection (-Wl,--wrap=malloc): the next library malloc returns NULL */
+static int fail_malloc;
+extern void *__real_malloc(size_t);
+void *__wrap_malloc(size_t n)
+{
+	if (fail_malloc > 0 && !--fail_malloc) return 0;
+	return __real_malloc(n);
+}
+static int fail_realloc;    /* > 0: the fail_realloc-th library realloc from now on and all later ones return NULL */
+static int realloc_refused;
+extern void *__real_realloc(void *, size_t);
+void *__wrap_realloc(void *p, size_t n)
+{
+	if (fail_realloc == 1) { ++realloc_refused; return 0; }
+	if (fail_realloc > 1) --fail_realloc;
+	return __real_realloc(p, n);
+}
 /* "none" -> NULL message, hex -> one-fragment message */
 static int parse_msg(const char *s, MPT_STRUCT(message) *msg, uint8_t **dat, int *none)
 {
@@ -211,6 +228,17 @@ static int sin_handler(void *arg, MPT_STRUCT(event) *ev)
 			continue;
 		}
 		MPT_STRUCT(message) msg; uint8_t *dat = 0; int none = 0, r;
+		if (!strncmp(a, "replyfail:", 10) || !strncmp(a, "replyfail2:", 11)) {
+			/* the stream's write queue cannot grow: 1st (nothing buffered yet) / 2nd (id buffered) realloc fails */
+			int k = a[9] == '2' ? 2 : 1;
+			if (parse_msg(a + 9 + k, &msg, &dat, &none) || none) { p += snprintf(sin_res + p, sizeof(sin_res) - p, "badact"); continue; }
+			fail_realloc = k; realloc_refused = 0;
+			r = ev->reply->_vptr->reply(ev->reply, &msg);
+			fail_realloc = 0;
+			p += snprintf(sin_res + p, sizeof(sin_res) - p, r < 0 ? "refused" : (realloc_refused ? "ok" : "ok-nofail"));
+			free(dat);
+			continue;
+		}
 		if (!strcmp(a, "replynull")) none = 1;
 		else if (strncmp(a, "reply:", 6) || parse_msg(a + 6, &msg, &dat, &none) || none) { p += snprintf(sin_res + p, sizeof(sin_res) - p, "badact"); continue; }
 		r = ev->reply->_vptr->reply(ev->reply, none ? 0 : &msg);
@@ -219,15 +247,24 @@ static int sin_handler(void *arg, MPT_STRUCT(event) *ev)
 	}
 	return ret;
 }
-static int sin_act_ok(const char *acts)
+static int sin_fresh;       /* stream input opened and no request handled yet (nothing ever written) */
+static int sin_act_ok(const char *acts, int fresh)
 {
 	/* acts: comma separated, each reply:<hex> | replynull | defer | ret:<int> */
 	char *copy = strdup(acts), *save = 0, *a; int ok = 1, n = 0;
 	if (!*acts || acts[0] == ',' || acts[strlen(acts) - 1] == ',' || strstr(acts, ",,")) ok = 0;
 	for (a = strtok_r(copy, ",", &save); a && ok; a = strtok_r(0, ",", &save), ++n) {
-		if (!strcmp(a, "replynull") || !strcmp(a, "defer")) continue;
+		if (!strcmp(a, "replynull")) { fresh = 0; continue; }
+		if (!strcmp(a, "defer")) continue;
+		if (!strncmp(a, "replyfail:", 10) || !strncmp(a, "replyfail2:", 11)) {
+			/* failure injection is predictable only while the write queue was never allocated */
+			int k = a[9] == '2' ? 2 : 1; uint8_t *d = 0; size_t l = 0; int isn;
+			if (!fresh || drv_parse_data(a + 9 + k, &d, &l, &isn) || isn || (k == 2 && l < 600)) ok = 0;
+			if (k == 2) fresh = 0;
+			free(d); continue;
+		}
 		if (!strncmp(a, "ret:", 4)) { char *e; long v = strtol(a + 4, &e, 10); if (*e || e == a + 4 || a[4] == '+' || v < -128 || v > 127) ok = 0; continue; }
-		if (!strncmp(a, "reply:", 6)) { uint8_t *d = 0; size_t l; int isn; if (drv_parse_data(a + 6, &d, &l, &isn) || isn) ok = 0; free(d); continue; }
+		if (!strncmp(a, "reply:", 6)) { uint8_t *d = 0; size_t l; int isn; if (drv_parse_data(a + 6, &d, &l, &isn) || isn) ok = 0; free(d); fresh = 0; continue; }
 		ok = 0;
 	}
 	free(copy);
@@ -236,6 +273,7 @@ static int sin_act_ok(const char *acts)
 /* ---------------------------------------------------------------- stream-backed connection */
 static MPT_STRUCT(connection) ccon = MPT_CONNECTION_INIT;
 static int ccon_open;
+static int ccon_fresh;      /* opened, nothing sent or handled yet */
 
 static void ccon_close(void)
 {
@@ -282,14 +320,15 @@ static void con_op(void)
 		ccon = init;
 		ccon.out.buf._buf = (void *) srm;
 		ccon.out._idlen = a;
-		ccon_open = 1;
+		ccon_open = 1; ccon_fresh = 1;
 		sin_peer = sv[1]; sin_fd0 = sv[0];
 		puts("R ok | C - | I ret=0");
 	}
 	else if (!strcmp(op, "req") && drv_nw == 4) {
 		uint8_t *dat = 0; size_t dlen = 0; int isnull = 0;
 		int discard = !strcmp(drv_w[3], "discard");   /* mpt_connection_dispatch(con, 0, 0): drop the message */
-		if (!ccon_open || drv_parse_data(drv_w[2], &dat, &dlen, &isnull) || isnull || dlen > 1000 || !(discard || sin_act_ok(drv_w[3]))) { puts("bad-op"); free(dat); return; }
+		if (!ccon_open || drv_parse_data(drv_w[2], &dat, &dlen, &isnull) || isnull || dlen > 1000 || !(discard || sin_act_ok(drv_w[3], ccon_fresh))) { puts("bad-op"); free(dat); return; }
+		ccon_fresh = 0;
 		uint8_t wire[2100]; size_t wl = cobs_encode(dat, dlen, wire);
 		free(dat);
 		if (write(sin_peer, wire, wl) != (ssize_t) wl) { puts("R nowrite | C - | I ret=0"); return; }
@@ -313,6 +352,7 @@ static void con_op(void)
 	else if (!strcmp(op, "dreply") && drv_nw == 4) {
 		MPT_STRUCT(message) msg; uint8_t *dat = 0; int none = 0;
 		if (drv_parse_nat(drv_w[2], &a) || a >= (size_t) cnh || !chnd[a] || parse_msg(drv_w[3], &msg, &dat, &none)) { puts("bad-op"); return; }
+		ccon_fresh = 0;
 		int r = chnd[a]->_vptr->reply(chnd[a], none ? 0 : &msg);
 		if (!(r < 0 && !none)) chnd[a] = 0;
 		free(dat);
@@ -330,6 +370,7 @@ static void con_op(void)
 	else if (!strcmp(op, "send") && drv_nw == 3) {
 		uint8_t *dat = 0; size_t dlen = 0; int isnull = 0;
 		if (!ccon_open || drv_parse_data(drv_w[2], &dat, &dlen, &isnull) || isnull || dlen > 1000) { puts("bad-op"); free(dat); return; }
+		ccon_fresh = 0;
 		ssize_t r1 = dlen ? mpt_connection_push(&ccon, dlen, dat) : 0;
 		ssize_t r2 = r1 < 0 ? r1 : mpt_connection_push(&ccon, 0, 0);
 		free(dat);
@@ -352,21 +393,45 @@ static void sin_op(void)
 {
 	const char *op = drv_w[1];
 	size_t a;
-	if (!strcmp(op, "open") && drv_nw == 3) {
+	if (!strcmp(op, "probe") && drv_nw == 2) {
+		/* the other interfaces of the stream input: conversions, reference count, clone — none touches the replies */
+		if (!sin_in) { puts("bad-op"); return; }
+		const MPT_STRUCT(named_traits) *tr = mpt_input_type_traits();
+		MPT_INTERFACE(convertable) *cv = (void *) sin_in;
+		const char *fmt = 0; void *p1 = 0, *p2 = 0; int fd = -1;
+		int me = tr ? (int) tr->type : (int) MPT_ENUM(TypeMetaPtr);
+		int r0 = cv->_vptr->convert(cv, 0, &fmt);
+		int r1 = cv->_vptr->convert(cv, MPT_ENUM(TypeMetaPtr), &p1);
+		int r2 = cv->_vptr->convert(cv, MPT_ENUM(TypeUnixSocket), &fd);
+		int r3 = cv->_vptr->convert(cv, me, &p2);
+		int r4 = cv->_vptr->convert(cv, 'x', 0);
+		int r5 = cv->_vptr->convert(cv, 0, 0) == me && cv->_vptr->convert(cv, MPT_ENUM(TypeUnixSocket), 0) == me;
+		uintptr_t rf = sin_in->_vptr->meta.addref((void *) sin_in);
+		sin_in->_vptr->meta.unref((void *) sin_in);
+		MPT_INTERFACE(metatype) *cl = sin_in->_vptr->meta.clone((void *) sin_in);
+		printf("R ok fmt=%s,%s meta=%s,%d sock=%s,%s input=%s,%d unknown=%s noptr=%s clone=%s ref=%d | C - | I ret=0\n",
+		       (fmt && fmt[0] == MPT_ENUM(TypeUnixSocket) && !fmt[1]) ? "sock" : "?", r0 == me ? "me" : "?",
+		       p1 == (void *) sin_in ? "same" : "?", r1, fd == sin_fd0 ? "same" : "?", r2 == me ? "me" : "?",
+		       p2 == (void *) sin_in ? "same" : "?", r3, r4 < 0 ? drv_errname(r4) : "ok", r5 ? "ok" : "?", cl ? "yes" : "no", (int) rf);
+	}
+	else if (!strcmp(op, "open") && (drv_nw == 3 || (drv_nw == 4 && !strcmp(drv_w[3], "ro")))) {
 		if (drv_parse_nat(drv_w[2], &a) || a > 1000) { puts("bad-op"); return; }
 		sin_close(); ccon_release(); ccon_close(); sin_drop_peer();
 		creplen = 0;
 		int sv[2];
 		if (socketpair(AF_UNIX, SOCK_STREAM, 0, sv) < 0) { puts("R nosocket | C - | I ret=0"); return; }
 		MPT_STRUCT(socket) sock; sock._id = sv[0];
-		sin_in = mpt_stream_input(&sock, MPT_STREAMFLAG(RdWr) | MPT_STREAMFLAG(Buffer), MPT_ENUM(EncodingCobs), a);
+		/* `ro`: the stream cannot be written, there is no way to answer */
+		sin_in = mpt_stream_input(&sock, (drv_nw == 4 ? MPT_STREAMFLAG(Read) : MPT_STREAMFLAG(RdWr)) | MPT_STREAMFLAG(Buffer), MPT_ENUM(EncodingCobs), a);
 		if (!sin_in) { close(sv[0]); close(sv[1]); puts("R refused | C - | I ret=0"); return; }
 		sin_peer = sv[1]; sin_fd0 = sv[0];
+		sin_fresh = 1;
 		puts("R ok | C - | I ret=0");
 	}
 	else if (!strcmp(op, "req") && drv_nw == 4) {
 		uint8_t *dat = 0; size_t dlen = 0; int isnull = 0;
-		if (!sin_in || drv_parse_data(drv_w[2], &dat, &dlen, &isnull) || isnull || dlen > 1000 || !sin_act_ok(drv_w[3])) { puts("bad-op"); free(dat); return; }
+		if (!sin_in || drv_parse_data(drv_w[2], &dat, &dlen, &isnull) || isnull || dlen > 1000 || !sin_act_ok(drv_w[3], sin_fresh)) { puts("bad-op"); free(dat); return; }
+		sin_fresh = 0;
 		uint8_t wire[2100]; size_t wl = cobs_encode(dat, dlen, wire);
 		free(dat);
 		if (write(sin_peer, wire, wl) != (ssize_t) wl) { puts("R nowrite | C - | I ret=0"); return; }
@@ -534,12 +599,14 @@ int main(void)
 			free(dat);
 			result(r < 0 ? "refused" : "ok", r);
 		}
-		else if (!strcmp(op, "defer") && drv_nw == 2) {
+		else if (!strcmp(op, "defer") && (drv_nw == 2 || (drv_nw == 3 && !strcmp(drv_w[2], "nomem")))) {
 			if (!ctx || nh >= MAXH) { puts("bad-op"); continue; }
 			MPT_INTERFACE(reply_context) *rc = 0;
 			int r = MPT_metatype_convert(ctx, MPT_ENUM(TypeReplyPtr), &rc);
 			if (r < 0 || !rc) { result("noconv", r); continue; }
+			fail_malloc = drv_nw == 3;
 			MPT_INTERFACE(reply_context_detached) *h = rc->_vptr->defer(rc);
+			fail_malloc = 0;
 			if (!h) result("refused", 0);
 			else { char v[32]; hnd[nh] = h; snprintf(v, sizeof(v), "ok h%d", nh); ++nh; result(v, 0); }
 		}
